@@ -38,7 +38,7 @@ NAME_ATOMS = ["My", "Playlist", "Vol", "2", ".", ".", " ", "/", "|", "ä", "☃"
               "&", "m3u", "m3u8", ",", "Ω", " ", "日本", "a", "B"]
 NAME_FIXED = ["My.Playlist", "Vol. 2", "a/b", ".hidden", "x.", "ä ö", "☃", " lead", "trail ", "a.b.c", "plain",
               "q?x#y", "100%", "a|b", "..", ".", "x.m3u", "x.m3u8", "ünï.cödé", "/abs", "a//b", "..|..|etc",
-              "tab\there", "Best of 80's", "v1.0.2 final"]
+              "tab\there", "Best of 80's", "v1.0.2 final", " ", " . ", " .. "]
 URI_FIXED = ["dummy:a", "dummy:track:1", "file:///music/a%20b.mp3", "http://example.com/s?x=1&y=2#frag",
              "spotify:track:6rqhFgbbKwnb9MLmUQDhG6", "local:track:ä/ö.flac", "yt:https://youtu.be/x", "x-y+z.1:opaque",
              "file:///x y", "HTTP://UPPER/", "a:", "dummy:with,comma", "dummy:☃", "mms://h/p", "file:///m3u/#EXTINF"]
@@ -315,7 +315,7 @@ def provider_sequences(chk):
                 kind = rng.weighted([("create", 3), ("save", 5), ("lookup", 2), ("get_items", 1),
                                      ("as_list", 1.5), ("delete", 1.2)])
                 pick = (lambda: rng.choice(known) if known and rng.random() < 0.85 else
-                        translator.path_to_uri(Path(gen_name(rng).strip().replace("/", "|") + rng.choice([".m3u", ".m3u8", ".txt"]))))
+                        translator.path_to_uri(Path(gen_name(rng).strip().replace("/", "|") + rng.choice([".m3u", ".m3u8", ".txt", ""]))))
                 before = read_dir(root, enc)
                 step = {"kind": kind}
                 try:
@@ -389,7 +389,11 @@ def monitors(chk, provider, step, ext, enc, ci):
         return  # exceptions are compared with the model (ORaise), the property does not speak about them
     if kind in ("create", "save") and obs[1] is not None:
         pl = obs[1]
-        fenc = enc_for(translator.uri_to_path(pl.uri), enc)
+        fenc = enc_for(translator.uri_to_path(pl.uri), enc)          # encoding used when it is read back
+        wenc = enc_for(step["f"], enc) if kind == "save" else fenc      # encoding it was written with
+
+        def through(x, we, re_):
+            return None if x is None else x.encode(we, "replace").decode(re_, "replace")
         # (a) name: path separators replaced, otherwise the requested name
         want = None
         if kind == "create":
@@ -402,7 +406,7 @@ def monitors(chk, provider, step, ext, enc, ci):
                                 f"{kind} with name {want!r} produced a playlist named {pl.name!r}", case)
         # (b) round trip through lookup
         tracks = step.get("tracks", [])
-        if all(py_line_safe(t) for t in tracks) and all(codec(u, fenc) == u and codec(n, fenc) == n for u, n in tracks):
+        if all(py_line_safe(t) for t in tracks) and all(through(u, wenc, fenc) == u and through(n, wenc, fenc) == n for u, n in tracks):
             back = provider.lookup(pl.uri)
             got = None if back is None else [(t.uri, t.name) for t in back.tracks]
             if got != tracks or back.name != pl.name or back.uri != pl.uri:
